@@ -65,7 +65,7 @@ package dns
 // one inbound message: a header that does not decode gets no reply and no handler call; the handler runs only
 // for an accepted message that decoded; a rejected or undecodable message gets FORMERR (NOTIMP when the
 // policy says so) with the request's ID and no records; an ignored one gets nothing
-//@ func (*Server).serveDNS [C14 C12:fullsize C11:tsigstate]
+//@ func (*Server).serveDNS [C14 C12:fullsize C11:tsigstate C15:tsigstate]
 //@   opt no-safety
 //@   requires srv != nil && w != nil
 //@   callsite "ServeDNS" decoded: action == MsgAccept && called("unpack") && callres("unpack") == nil
@@ -181,6 +181,9 @@ package dns
 //@   opt no-safety
 //@   requires srv != nil
 //@   callsite "serveDNS" same: arg0 == srv && same(arg1, m) && arg2 == w
+// the receive buffer is handed back to the pool once, by serveDNS, before the handler runs - never here, where the
+// handler may already have let the next datagram into it
+//@   exit nopool: !called("Put")
 //@   callsite "serveDNS" session: !called("DecorateWriter") ==> w.udp == u && w.udpSession == udpSession && w.pcSession == pcSession && asptr(w.writer, response) == w
 
 // the stream loop: every message read without error is served on this connection's writer, at most MaxTCPQueries
